@@ -152,4 +152,9 @@ theorem C18_extend_prec_value (est : Nat → Nat) (d : Dec) (p : Nat) (h : d.dig
 theorem C18_ctor_accessors (i s : Int) : (Dec.mk i s).int = i ∧ (Dec.mk i s).scale = s ∧
     (Dec.mk i s).value = (i : ℚ) * (10 : ℚ) ^ (-s) := ⟨rfl, rfl, rfl⟩
 
+
+/-- non-vacuity: the digit count of `10^19` (a 64-bit boundary case) through the code's own f64 estimate -/
+example : countDigitsUint F64.estCode (10 ^ 19) = numDigits (10 ^ 19) :=
+  C18_digits_code (10 ^ 19) (by decide)
+
 end BigDec
